@@ -419,7 +419,7 @@ func init() {
 			if u == 0 {
 				for i, pc := range c16NestedPrograms() {
 					pc, i := pc, i
-					c.Do(func() any { return c16Spec{Form: "nested", Lo: i, Prog: pc.source()} }, func() *fw.Violation { v, _, _ := pc.check(c); return v })
+					c.Do(func() any { return c16Spec{Form: "nested", Lo: i, Prog: pc.source()} }, func() *fw.Violation { return pc.mustCheck(c, "one method on two receivers") })
 				}
 			}
 			n := 0
